@@ -89,7 +89,8 @@ def _tamper_all(ops, suite, cid, total, masks):
 
 
 def gen(rng, n, tier):
-    """n scales the number of random extra cases; the systematic part is always complete."""
+    """n scales the number of random extra cases; the systematic part is always complete.  Independent groups of
+    cases are separated by `reset` (each group re-keys), so that a failing op is replayed with a short history."""
     ops = []
     # --- known answers first (nonce = iv XOR pn, key/iv/hp derivation, header protection) ---
     ops.append(f"kat initial server {RFC_DCID} 0 {A3_PACKET} {A3_PAYLOAD}")
@@ -98,48 +99,58 @@ def gen(rng, n, tier):
     if a2:
         ops.append(f"kat initial client {RFC_DCID} 0 {a2[0]} {a2[1]}")
     extra = max(1, n // 1500)
+
+    def short_case(suite, case):
+        cid, dc, pn, la, spin, phase, plen = case
+        ops.append(_short_case(rng, suite, cid, dc, pn, la, spin, phase, plen))
+        ops.append(f"open {suite} {cid}")
+        total = 1 + len(dc) + _pn_len(pn, la) + plen + 16
+        masks = MASKS if plen <= 100 else [rng.choice([1, 2, 4, 8, 16, 32, 64, 128])]
+        _tamper_all(ops, suite, cid, total, masks)
+        # the first byte with every single-bit mask (form, fixed, spin, reserved, key phase, pn length)
+        for bit in range(8):
+            ops.append(f"flip {suite} {cid} 0 {1 << bit}")
+        # another packet-number expansion base: the nonce must change
+        for la2 in (la + 2**33, la + 2**17 if pn - la < 100 else max(0, la - 2**17), la):
+            if 0 <= la2 <= MAXPN:
+                ops.append(f"reopen {suite} {cid} {la2}")
+
     for suite in SUITES:
         cs = bytes(rng.randrange(256) for _ in range(SECRET_LEN[suite]))
         ss = bytes(rng.randrange(256) for _ in range(SECRET_LEN[suite]))
-        ops.append(f"key {suite} {hexs(cs)} {hexs(ss)}")
+        key = f"key {suite} {hexs(cs)} {hexs(ss)}"
         dcid = bytes(rng.randrange(256) for _ in range(8))
         # (id, dcid, pn, la, spin, phase, payload length): all four pn lengths, both key phases, dcid 0/8/20
         base = rng.randrange(1000, 2**30)
-        cases = [
-            ("a", dcid, base + 3, base, 0, 0, 33),
-            ("b", dcid, base + 4, base, 1, 0, 33),                     # same connection, next pn, other spin
-            ("c", dcid, base + 200, base, 0, 1, 40),                   # 2-byte pn, key phase 1
-            ("d", dcid, base + 40000, base, 1, 1, 24),                 # 3-byte pn
-            ("e", dcid, base + 2**24, base, 0, 0, 24),                 # 4-byte pn
-            ("f", b"", 7, 0, 1, 0, 38),                                # empty dcid
-            ("g", bytes(rng.randrange(256) for _ in range(20)), 9, 2, 0, 0, 64),
-        ]
+        ca = ("a", dcid, base + 3, base, 0, 0, 33)
+        cb = ("b", dcid, base + 4, base, 1, 0, 33)                      # same connection, next pn, other spin
+        cc = ("c", dcid, base + 200, base, 0, 1, 40)                    # 2-byte pn, key phase 1
+        cd = ("d", dcid, base + 40000, base, 1, 1, 24)                  # 3-byte pn
+        singles = [("e", dcid, base + 2**24, base, 0, 0, 24),           # 4-byte pn
+                   ("f", b"", 7, 0, 1, 0, 38),                          # empty dcid
+                   ("g", bytes(rng.randrange(256) for _ in range(20)), 9, 2, 0, 0, 64)]
         for k in range(extra):
             la = rng.randrange(0, 2**40)
             pn = la + rng.choice([1, 2, 100, 127, 128, 129, 32767, 32768, 2**23 - 1, 2**23, 2**31 - 1])
-            cases.append((f"r{k}", bytes(rng.randrange(256) for _ in range(rng.choice([0, 4, 8, 16, 20]))), pn, la,
-                          rng.randrange(2), rng.randrange(2), rng.choice([48, 100, 300, 1200])))
-        for cid, dc, pn, la, spin, phase, plen in cases:
-            ops.append(_short_case(rng, suite, cid, dc, pn, la, spin, phase, plen))
-            ops.append(f"open {suite} {cid}")
-            total = 1 + len(dc) + _pn_len(pn, la) + plen + 16
-            masks = MASKS if plen <= 100 else [rng.choice([1, 2, 4, 8, 16, 32, 64, 128])]
-            _tamper_all(ops, suite, cid, total, masks)
-            # the first byte with every single-bit mask (form, fixed, spin, reserved, key phase, pn length)
-            for bit in range(8):
-                ops.append(f"flip {suite} {cid} 0 {1 << bit}")
-            # another packet-number expansion base: the nonce must change
-            for la2 in (la + 2**33, la + 2**17 if pn - la < 100 else max(0, la - 2**17), la):
-                if 0 <= la2 <= MAXPN:
-                    ops.append(f"reopen {suite} {cid} {la2}")
+            singles.append((f"r{k}", bytes(rng.randrange(256) for _ in range(rng.choice([0, 4, 8, 16, 20]))), pn, la,
+                            rng.randrange(2), rng.randrange(2), rng.choice([48, 100, 300, 1200])))
+        ops += ["reset", key]
+        short_case(suite, ca)
+        short_case(suite, cb)
         # splices of two genuine packets of the same connection (different spin bit): every cut
-        la_total = 1 + 8 + 1 + 33 + 16
-        for cut in range(1, la_total):
+        for cut in range(1, 1 + 8 + 1 + 33 + 16):
             ops.append(f"splice {suite} a b {cut}")
             ops.append(f"splice {suite} b a {cut}")
+        ops += ["reset", key]
+        short_case(suite, cc)
+        short_case(suite, cd)
         for cut in range(1, 1 + 8 + 2 + 24 + 16, 3):
             ops.append(f"splice {suite} c d {cut}")
+        for case in singles:
+            ops += ["reset", key]
+            short_case(suite, case)
         # below-minimum payloads are refused by the encoder (model of the size rule)
+        ops += ["reset", key]
         for plen in (0, 1, 15, 16, 19, 23, 24, 25, 26):
             ops.append(_short_case(rng, suite, "z", b"", 5, 0, 0, 0, plen))
         ops.append(_short_case(rng, suite, "z", dcid, 5, 9, 0, 0, 40))       # pn below largest acked: truncation error
@@ -154,6 +165,8 @@ def gen(rng, n, tier):
         ("d", dcid, b"", b"\x07", 300, 100, 1100),
     ]
     for cid, dc, sc, tok, pn, la, plen in init:
+        if cid != "b":
+            ops.append("reset")
         payload = bytes(rng.randrange(256) for _ in range(plen))
         ops.append(f"case initial {cid} initial {hexs(dc)} {hexs(sc)} {hexs(tok)} {pn} {la} {hexs(payload)}")
         ops.append(f"open initial {cid}")
@@ -165,9 +178,10 @@ def gen(rng, n, tier):
             ops.append(f"flip initial {cid} 0 {1 << bit}")
         ops.append(f"reopen initial {cid} {la + 2**33}")
         ops.append(f"reopen initial {cid} {la}")
-    for cut in range(8 + len(dcid), 1 + 4 + 1 + 8 + 1 + 5 + 1 + 2 + 1 + 40 + 16):
-        ops.append(f"splice initial a b {cut}")
-        ops.append(f"splice initial b a {cut}")
+        if cid == "b":
+            for cut in range(8 + len(dcid), 1 + 4 + 1 + 8 + 1 + 5 + 1 + 2 + 1 + 40 + 16):
+                ops.append(f"splice initial a b {cut}")
+                ops.append(f"splice initial b a {cut}")
     return ops
 
 
@@ -215,7 +229,12 @@ def oracle(ops, outs):
                 name = "rfc9001-a5-chacha20" if suite != "initial" else "rfc9001-initial-" + t[2]
                 bad.append((i, f"pp:kat-rejected:{name}", f"RFC 9001 Appendix A sample packet ({name}) must open to the RFC's payload, implementation gave {out}"))
         elif t[0] in ("flip", "trunc", "splice"):
-            if out == "bad-op" or out == "ok identical":
+            if out == "bad-op":
+                # the generator only emits ops inside the domain: a refusal means the real packet does not have the
+                # length / shape the generator assumed, i.e. bytes would silently go untested
+                bad.append((i, "pp:unexpected-bad-op", f"{op[:160]} was refused as outside the domain"))
+                continue
+            if out == "ok identical":
                 continue
             if out != "ok rejected":
                 c = cases.get((suite, t[2]))
